@@ -107,6 +107,7 @@ type machine struct {
 	ctxKids map[*ctxV][]*ctxV
 	initRunning *ssa.Package
 	fsm *fsModel
+	builders map[*value]value
 	errNotExist iface
 	concrete []NondetVal
 	cpos int
@@ -192,7 +193,7 @@ func (m *machine) global(g *ssa.Global) *value {
 }
 
 // packages whose initializers are plain error/variable definitions the models rely on
-var defaultInit = map[string]bool{"internal/oserror": true, "io/fs": true, "io": true, "context": true, "path/filepath": true}
+var defaultInit = map[string]bool{"internal/oserror": true, "io/fs": true, "io": true, "context": true, "path/filepath": true, "github.com/kennygrant/sanitize": true}
 
 var initWorkCache sync.Map
 
